@@ -163,6 +163,19 @@ where
     ///
     /// # Errors
     /// if change state fails.
+    /// Cancel a coroutine that the scheduler discards instead of resuming it.
+    /// The cancellation still goes through the state machine (`-> Running -> Cancelled`),
+    /// because listeners account for coroutines through it.
+    pub(crate) fn cancel_unresumed(&self) -> std::io::Result<()> {
+        if let CoroutineState::Syscall(val, syscall, SyscallState::Callback | SyscallState::Timeout) =
+            self.state()
+        {
+            self.syscall(val, syscall, SyscallState::Executing)?;
+        }
+        self.running()?;
+        self.cancel()
+    }
+
     pub(super) fn complete(&self, val: Return) -> std::io::Result<()> {
         let current = self.state();
         if CoroutineState::Running == current {
